@@ -1,5 +1,18 @@
-"""C06 - see harness/iindex_hist.py (shared generator, abstraction and NumPy oracle of C06/C07/C15) and
-coq/theories/Properties/C06.v.  This check judges the C06 part of every step: IIndex/Check.v chk06."""
+"""C06 - index operations track NumPy on the dense array, over any history.
+
+Theorems: coq/theories/Properties/C06.v (per-operation shape/dense refinement, history by induction; iindex-proofs).
+Tie (this check): stepwise simulation of random real histories, harness/iindex_hist.py `run_check(ctx, "C06")`:
+  * generator: initial real 1-D/2-D/3-D index + <= 6 (quick) / 12 (thorough) operations with their full argument space;
+    the real receiver is re-abstracted before EVERY step;
+  * inside Coq (IIndex/Check.v `chk06`, vm_compute): model `step (abs before) op` vs the abstracted real outcome on shape,
+    dense content, common (equal or a most frequent value where the library chooses), NumPy's expected rows, entries as
+    a dict for the entry-wise set updates, observers (get/items/to_dict(force), common_rowids, slices1d) against the model
+    and against the dense array; exception class when the call raises;
+  * model-free oracle (Python): NumPy on the dense array carried through the history, to_array(dtype=int), byte-exact
+    snapshots of every non-receiver operand, numpy.shares_memory for explicitly requested copies;
+  * verdicts, shrinking (drop steps / drop rows), evidence (operation / history-length / exception histograms, anchored
+    line coverage, steps inside the theorems' hypotheses `args_ok_b`).
+Notes: notes/iindex-harness.md."""
 from .. import iindex_hist
 
 
